@@ -474,24 +474,24 @@ Proof.
   unfold armodel_sim, ar_params_ok. rewrite size_check.
   destruct ((10 <? zlen params) || (zlen params <=? 0)) eqn:Hsz; cbn [negb andb].
   - (* wrong number of parameters *)
-    exists 56037. split; [lia|]. cbn.
+    exists 56001. split; [lia|]. cbn.
     rewrite !truth_b2z, or_ok. cbn. rewrite truth_b2z, Hsz. cbn. reflexivity.
   - assert (Hsz' := Hsz). apply orb_false_iff in Hsz'. destruct Hsz' as [H10 H0].
     apply Z.ltb_ge in H10. apply Z.leb_gt in H0. rewrite zlen_eq in H10, H0.
     set (prev0 := [n0 N; n0 N; n0 N; n0 N; n0 N; n0 N; n0 N; n0 N; n0 N; n0 N]).
     destruct (chk_loop "innov" "outputs" (zlen innov) mean ini (nofZ N 0) (nofZ N 0) params innov junk
-                (exec_fun N X program n) n 42 prev0) as (r & Hr & Hpost);
+                (exec_fun N X program n) n 1 prev0) as (r & Hr & Hpost);
       [left; split; reflexivity|lia|lia|].
     change (forallb (fun p : T => negb (nisnan N p)) params) with (forallb notnan params).
     destruct Hpost as [[Hall ->]|[Hall (code & k & Hcode & ->)]]; rewrite Hall; cbn [andb].
     + destruct (nisnan N mean) eqn:Hm; cbn [negb andb].
-      { exists 56046. split; [lia|].
+      { exists 56001. split; [lia|].
         run_head Hsz Hr prev0 n
           (ar_state "innov" "outputs" (zlen innov) (zlen params) 0 0 mean ini
              (nofZ N 0) (nofZ N 0) params innov junk prev0).
         rewrite Hm. cbn. reflexivity. }
       destruct (nisnan N ini) eqn:Hi; cbn [negb andb].
-      { exists 56049. split; [lia|].
+      { exists 56001. split; [lia|].
         run_head Hsz Hr prev0 n
           (ar_state "innov" "outputs" (zlen innov) (zlen params) 0 0 mean ini
              (nofZ N 0) (nofZ N 0) params innov junk prev0).
@@ -858,24 +858,24 @@ Proof.
   unfold armodel_residual, ar_params_ok. rewrite size_check.
   destruct ((10 <? zlen params) || (zlen params <=? 0)) eqn:Hsz; cbn [negb andb].
   - (* wrong number of parameters *)
-    exists 56104. split; [lia|]. cbn.
+    exists 56001. split; [lia|]. cbn.
     rewrite !truth_b2z, or_ok. cbn. rewrite truth_b2z, Hsz. cbn. reflexivity.
   - assert (Hsz' := Hsz). apply orb_false_iff in Hsz'. destruct Hsz' as [H10 H0].
     apply Z.ltb_ge in H10. apply Z.leb_gt in H0. rewrite zlen_eq in H10, H0.
     set (prev0 := [n0 N; n0 N; n0 N; n0 N; n0 N; n0 N; n0 N; n0 N; n0 N; n0 N]).
     destruct (chk_loop "inputs" "residuals" (zlen inputs) mean ini (nofZ N 0) (nofZ N 0) params inputs junk
-                (exec_fun N X program n) n 109 prev0) as (r & Hr & Hpost);
+                (exec_fun N X program n) n 1 prev0) as (r & Hr & Hpost);
       [right; split; reflexivity|lia|lia|].
     change (forallb (fun p : T => negb (nisnan N p)) params) with (forallb notnan params).
     destruct Hpost as [[Hall ->]|[Hall (code & k & Hcode & ->)]]; rewrite Hall; cbn [andb].
     + destruct (nisnan N mean) eqn:Hm; cbn [negb andb].
-      { exists 56113. split; [lia|].
+      { exists 56001. split; [lia|].
         run_head Hsz Hr prev0 n
           (ar_state "inputs" "residuals" (zlen inputs) (zlen params) 0 0 mean ini
              (nofZ N 0) (nofZ N 0) params inputs junk prev0).
         rewrite Hm. cbn. reflexivity. }
       destruct (nisnan N ini) eqn:Hi; cbn [negb andb].
-      { exists 56116. split; [lia|].
+      { exists 56001. split; [lia|].
         run_head Hsz Hr prev0 n
           (ar_state "inputs" "residuals" (zlen inputs) (zlen params) 0 0 mean ini
              (nofZ N 0) (nofZ N 0) params inputs junk prev0).
